@@ -246,7 +246,7 @@ def check_single_steps(c, sc, docs, pool, res, marks):
         T = tk.doc_tokens(model, d)
         n = len(T)
         res.states += 1
-        steps = list(gen_steps.replace_steps(n, pool, structure=(False,)))
+        steps = list(gen_steps.replace_steps(n, pool, structure=(False, True)))
         ref = rp.RefDoc(model, d)
         for p in range(n + 1):
             tgt = ref.node_at(ref.root, p)
